@@ -15,6 +15,7 @@ struct ghost_env {
 	int f_open_calls, f_open_ok, f_open_fd;
 	int f_close_calls, f_close_fail;
 	int f_wr_calls, f_wr_ret, f_wr_beg, f_wr_end, f_wr_fd;
+	int f_wr_fail_any, f_open_fail_any;
 	struct lbuf *f_wr_lb;
 } E;
 #define g_st_exists	E.f_st_exists
@@ -50,6 +51,7 @@ static int verif_open(const char *path, int flags)
 	g_open_calls = g_open_calls < 100 ? g_open_calls + 1 : 100;
 	if (nondet_bool() || path[0] == 0) {	/* POSIX: an empty pathname fails with ENOENT */
 		g_open_ok = 0;
+		E.f_open_fail_any = 1;
 		return -1;
 	}
 	g_open_ok = 1;
@@ -95,12 +97,14 @@ int lbuf_wr(struct lbuf *lb, int fd, int beg, int end)
 	g_wr_beg = beg;
 	g_wr_end = end;
 	g_wr_ret = nondet_bool() ? 1 : 0;
+	if (g_wr_ret)
+		E.f_wr_fail_any = 1;
 	return g_wr_ret;
 }
 
 #define FILE_ENV_HAVOC() do { g_st_exists = nondet_bool(); g_st_mtime = nondet_long(); \
 	__CPROVER_assume(g_st_mtime >= 0); g_stat_calls = 0; g_open_calls = 0; g_open_ok = 0; \
-	g_close_calls = 0; g_close_fail = 0; g_wr_calls = 0; g_wr_ret = 0; g_open_fd = -1; \
+	g_close_calls = 0; g_close_fail = 0; g_wr_calls = 0; g_wr_ret = 0; g_open_fd = -1; E.f_wr_fail_any = 0; E.f_open_fail_any = 0; \
 	g_len = nondet_int(); __CPROVER_assume(g_len >= 0 && g_len <= 0x1000000); } while (0)
 
 /* ------------------------------------------------------------------ lbuf_save (C03) */
@@ -123,6 +127,36 @@ __CPROVER_ensures(__CPROVER_return_value == 0 ==> (g_open_calls == 1 && g_open_o
 /* a forced write, or a write to the own unchanged file / a new file, is attempted */
 __CPROVER_ensures((force || !g_st_exists && ts >= -1 || g_st_exists && ts > 0 && g_st_mtime <= ts) ==> g_open_calls == 1)
 ;
+
+/* the same function seen by callers that save several buffers in a row: a failure of this
+ * call (sticky ghost flags of the stubs) makes this call return an error */
+char *lbuf_save_seq_contract(struct lbuf *lb, int beg, int end, char *path, int force, long ts)
+__CPROVER_requires(path != 0)
+__CPROVER_requires(end < 0 ? (beg == 0) : (0 <= beg && beg <= end && end <= g_len))
+__CPROVER_assigns(E)
+__CPROVER_ensures(E.f_wr_fail_any == __CPROVER_old(E.f_wr_fail_any) || (E.f_wr_fail_any == 1 && __CPROVER_return_value != 0))
+__CPROVER_ensures(E.f_open_fail_any == __CPROVER_old(E.f_open_fail_any) || (E.f_open_fail_any == 1 && __CPROVER_return_value != 0))
+__CPROVER_ensures(g_close_fail == __CPROVER_old(g_close_fail) || (g_close_fail == 1 && __CPROVER_return_value != 0))
+__CPROVER_ensures((!force && g_st_exists && (ts <= 0 || g_st_mtime > ts)) ==>
+	(__CPROVER_return_value != 0 && g_open_calls == __CPROVER_old(g_open_calls)))
+__CPROVER_ensures(E.f_st_exists == __CPROVER_old(E.f_st_exists) && E.f_st_mtime == __CPROVER_old(E.f_st_mtime))
+;
+
+void h_lbuf_save_seq(void)
+{
+	struct lbuf *lb;
+	int beg, end, force;
+	long ts;
+	char path[4];
+	GHOST_INIT();
+	FILE_ENV_HAVOC();
+	g_open_calls = nondet_int() % 50; g_close_fail = nondet_bool();
+	E.f_wr_fail_any = nondet_bool(); E.f_open_fail_any = nondet_bool();
+	lbuf_save(lb, beg, end, path, force, ts);
+#ifdef CANARY
+	__CPROVER_assert(0, "canary");
+#endif
+}
 
 void h_lbuf_save(void)
 {
@@ -286,7 +320,7 @@ __CPROVER_ensures(__CPROVER_return_value == 0 ==> (*beg == B.region_beg && *end 
 #define BUFS_HAVOC() do { int i_; \
 	for (i_ = 0; i_ < 16; i_++) { \
 		bufs[i_].lb = nondet_bool() ? (struct lbuf *) &g_lbobj[i_] : (struct lbuf *) 0; \
-		bufs[i_].path = bufs[i_].lb ? malloc(2) : (char *) 0; \
+		bufs[i_].path = bufs[i_].lb ? (i_ == 0 ? malloc(2) : g_paths[i_]) : (char *) 0; \
 		if (bufs[i_].path) { bufs[i_].path[0] = nondet_char(); bufs[i_].path[1] = 0; } \
 		bufs[i_].mtime = nondet_long(); bufs[i_].id = nondet_short(); \
 		bufs[i_].row = nondet_int(); bufs[i_].off = nondet_int(); bufs[i_].top = nondet_int(); \
@@ -302,6 +336,7 @@ __CPROVER_ensures(__CPROVER_return_value == 0 ==> (*beg == B.region_beg && *end 
 	xtop = nondet_int(); xleft = nondet_int(); xtd = nondet_int(); \
 	} while (0)
 
+char g_paths[16][2];
 /* a command name as ex_cmd produces it: at most 17 bytes + NUL */
 #define CMD_HAVOC(c) do { int k_; for (k_ = 0; k_ < 18; k_++) (c)[k_] = nondet_char(); (c)[18] = 0; } while (0)
 static int has_chr(const char *s, int c)
@@ -323,6 +358,16 @@ __CPROVER_requires(loc != 0 && cmd != 0 && arg != 0)
 __CPROVER_assigns(E, B, __CPROVER_object_whole(bufs), xrow, xoff, xtop, xleft, xtd, xquit, g_dup_src, g_dup_dst, g_len)
 __CPROVER_frees(bufs[0].path)
 __CPROVER_ensures(1)
+;
+
+/* ec_write: frame (only the current buffer's bookkeeping, never another buffer, never xquit) */
+int ec_write_contract(char *loc, char *cmd, char *arg, char *txt)
+__CPROVER_requires(loc != 0 && cmd != 0 && arg != 0 && bufs[0].lb != 0 && bufs[0].path != 0)
+__CPROVER_assigns(E, B.dirty[0], B.saved_calls, B.saved_slot, B.saved_clear, B.mod_calls, B.show_calls,
+	B.print_calls, B.pipe_calls, B.regput_calls, bufs[0].path, bufs[0].mtime, xrow, g_dup_src, g_dup_dst)
+__CPROVER_frees(bufs[0].path)
+__CPROVER_ensures(__CPROVER_return_value == 0 || __CPROVER_return_value == 1)
+__CPROVER_ensures(bufs[0].path != 0)
 ;
 
 void h_ec_write(void)
@@ -384,6 +429,102 @@ void h_ec_write(void)
 	}
 	if (ret == 1)
 		__CPROVER_assert(B.dirty[0] == W.dirty0, "ec_write: a failed command leaves the dirty state alone");
+#ifdef CANARY
+	__CPROVER_assert(0, "canary");
+#endif
+}
+
+/* ------------------------------------------------------------------ bufs_switch as seen by its callers */
+void bufs_switch_contract(int idx)
+__CPROVER_requires(0 <= idx && idx < 16 && bufs[idx].lb != 0)
+__CPROVER_assigns(B.switch_calls, B.switch_idx, B.regput_calls, __CPROVER_object_whole(bufs), xrow, xoff, xtop, xleft, xtd)
+__CPROVER_ensures(B.switch_calls == __CPROVER_old(B.switch_calls) + 1 && B.switch_idx == idx)
+;
+
+/* bufs_modified: "is slot idx dirty" (with autowrite: try to save it first) */
+int bufs_modified_contract(int idx, char *msg)
+__CPROVER_requires(0 <= idx && idx < 16 && (bufs[idx].lb == 0 || bufs[idx].path != 0))
+__CPROVER_assigns(E, B.mod_calls, B.show_calls)
+__CPROVER_ensures(__CPROVER_return_value == 0 || __CPROVER_return_value == 1)
+/* a clean or empty slot never blocks */
+__CPROVER_ensures((bufs[idx].lb == 0 || !B.dirty[idx]) ==> __CPROVER_return_value == 0)
+/* without autowrite a dirty slot always blocks, and nothing is written */
+__CPROVER_ensures((bufs[idx].lb != 0 && B.dirty[idx] && !xaw) ==> __CPROVER_return_value == 1)
+__CPROVER_ensures(!xaw ==> (g_open_calls == __CPROVER_old(g_open_calls) && g_close_fail == __CPROVER_old(g_close_fail) &&
+	E.f_wr_fail_any == __CPROVER_old(E.f_wr_fail_any) && E.f_open_fail_any == __CPROVER_old(E.f_open_fail_any)))
+__CPROVER_ensures(E.f_st_exists == __CPROVER_old(E.f_st_exists) && E.f_st_mtime == __CPROVER_old(E.f_st_mtime))
+;
+
+void h_bufs_modified(void)
+{
+	int idx;
+	char msg[2];
+	GHOST_INIT();
+	FILE_ENV_HAVOC();
+	BUFS_HAVOC();
+	msg[1] = 0;
+	bufs_modified(idx, nondet_bool() ? msg : (char *) 0);
+#ifdef CANARY
+	__CPROVER_assert(0, "canary");
+#endif
+}
+
+/* ------------------------------------------------------------------ ec_quit (C02, C03, C20) */
+struct ghost_quit { int k; int has_a, has_bang; } Q;
+
+void h_ec_quit(void)
+{
+	char loc[2], cmd[19], arg[2];
+	char pathbuf[2];
+	int k;
+	GHOST_INIT();
+	FILE_ENV_HAVOC();
+	BUFS_HAVOC();
+	CMD_HAVOC(cmd);
+	loc[0] = 0;
+	arg[0] = nondet_char(); arg[1] = 0;
+	pathbuf[0] = nondet_char(); pathbuf[1] = 0;
+	B.pathexp_ret = nondet_bool() ? pathbuf : (char *) 0;
+	__CPROVER_assume(bufs[0].lb != 0);
+	Q.has_a = has_chr(cmd, 'a');
+	Q.has_bang = has_chr(cmd, '!');
+	int writes_first = cmd[0] == 'w' || cmd[0] == 'x';
+	/* the first dirty open buffer, as it stands before the command */
+	int first_dirty = -1;
+	for (k = 15; k >= 0; k--)
+		if (bufs[k].lb && B.dirty[k])
+			first_dirty = k;
+	Q.k = first_dirty;
+	int ret = ec_quit(loc, cmd, arg, 0);
+	/* C02: plain quit (no 'a', no '!', no autowrite) is refused while any buffer is dirty, and
+	 * the editor switches to the first dirty one */
+	if (!Q.has_a && !Q.has_bang && !xaw && !writes_first) {
+		if (first_dirty >= 0) {
+			__CPROVER_assert(xquit == 0, "ec_quit: refuses to quit while a buffer is dirty");
+			__CPROVER_assert(B.switch_calls == 1 && B.switch_idx == first_dirty, "ec_quit: switches to the first dirty buffer");
+			__CPROVER_assert(g_open_calls == 0, "ec_quit: a refused quit writes nothing");
+		} else {
+			__CPROVER_assert(xquit == 1 && B.switch_calls == 0, "ec_quit: quits when every buffer is clean");
+		}
+	}
+	/* C02: wq/x: a failed write aborts the quit; a buffer that is still dirty refuses it */
+	if (writes_first && !Q.has_a && !Q.has_bang && !xaw) {
+		if (ret == 1)
+			__CPROVER_assert(xquit == 0, "ec_quit: wq aborts when the write fails");
+		if (first_dirty > 0)
+			__CPROVER_assert(xquit == 0, "ec_quit: wq refuses to quit while another buffer is dirty");
+		if (xquit == 1)
+			__CPROVER_assert(!B.dirty[0] && ret == 0, "ec_quit: wq quits only with the current buffer clean");
+	}
+	/* C03: xa / wqa: any failing save aborts the quit */
+	if (Q.has_a && !writes_first) {
+		if (g_close_fail || E.f_wr_fail_any || E.f_open_fail_any)
+			__CPROVER_assert(xquit == 0 && B.switch_calls == 1, "ec_quit: 'a' stops at the first buffer whose save fails");
+	}
+	/* a forced quit always quits */
+	if (Q.has_bang && !Q.has_a && !writes_first)
+		__CPROVER_assert(xquit == 1, "ec_quit: q! quits");
+	__CPROVER_assert(ret == 0 || ret == 1, "ec_quit: returns 0 or 1");
 #ifdef CANARY
 	__CPROVER_assert(0, "canary");
 #endif
